@@ -99,18 +99,9 @@ Definition general_ratio (from to : dty) : bool := negb (simple_ratiob from to).
 Lemma simple_ratiob_spec from to : simple_ratiob from to = true <-> simple_ratio from to.
 Proof. unfold simple_ratiob, simple_ratio. rewrite orb_true_iff, !Z.eqb_eq. tauto. Qed.
 
-Lemma c15_safe_cast_refuted : exists from to c, cast_dom from to c /\ general_ratio from to = true /\ ~ cast_spec from to c.
+Lemma c15_safe_cast : forall from to c, cast_dom from to c -> cast_spec from to c.
 Proof.
-  exists (mkD I64 2 3), (mkD I64 1 1), 1. unfold cast_dom, rep4, wf_dty. cbn [d_rep d_num d_den].
-  split; [repeat split; auto; lia|]. split; [reflexivity|].
-  unfold cast_spec. rewrite w_K45. unfold exact_cast. cbn. intros [_ H]. lia.
-Qed.
-
-Lemma c15_safe_cast_outside : forall from to c, cast_dom from to c -> general_ratio from to = false -> cast_spec from to c.
-Proof.
-  intros from to c (H1 & H2 & H3 & H4 & H5 & H6 & H7) Hg.
-  apply safe_cast_correct; try assumption.
-  apply simple_ratiob_spec. unfold general_ratio in Hg. destruct (simple_ratiob from to); [reflexivity | discriminate].
+  intros from to c (H1 & H2 & H3 & H4 & H5 & H6 & H7). apply safe_cast_correct_all; assumption.
 Qed.
 
 (* the standard units lie inside the domain and outside the class *)
@@ -129,7 +120,7 @@ Proof.
   assert (Hd : cast_dom (udty r1 u) (udty r2 w) c).
   { unfold cast_dom, wf_dty. destruct u, w; cbn [udty d_rep d_num d_den]; repeat split; try assumption; lia. }
   assert (Hg : general_ratio (udty r1 u) (udty r2 w) = false) by (destruct u, w; vm_compute; reflexivity).
-  split; [exact Hd|]. split; [exact Hg|]. exact (c15_safe_cast_outside _ _ c Hd Hg).
+  split; [exact Hd|]. split; [exact Hg|]. exact (c15_safe_cast _ _ c Hd).
 Qed.
 
 Lemma c15_safe_cast_example :
